@@ -12,7 +12,7 @@ from hgsim.util import canon, digest
 
 ID = "C01"
 LEVEL = "exploration"
-BUDGET = {"quick": (8, 500, 40), "thorough": (16, 60000, 600)}
+BUDGET = {"quick": (8, 1200, 90), "thorough": (16, 60000, 600)}
 RULE = (
     "seeded random gate-free DAG specs (1-8 nodes, fan-in/out, 0-3 outputs, defaults incl. upstream-fed, bound/provided/omitted "
     "external values, optional graph-level select, shuffled node list); each run on SyncRunner, on AsyncRunner under SimLoop with "
